@@ -81,7 +81,7 @@ def program():
 
 def make_interp():
     I = Interp(program(), _models.Models())
-    _interp.WIDTH_HOOK[0] = lambda c: C.width(I.world, c)
+    _interp.WIDTH_HOOK[0] = C.width_expr
     return I
 
 
@@ -181,6 +181,7 @@ class Exploration:
         self.paths = 0
         self.status = {}
         self.violations = []
+        self.vcount = {}
         self.tags = {}
         self.queries = 0
         self.solver_s = 0.0
@@ -203,7 +204,10 @@ class Exploration:
         for t in res.tags:
             self.tags[t] = self.tags.get(t, 0) + 1
         for v in res.violations:
-            self.violations.append(v)
+            k = v.get('vkey', v.get('clause'))
+            self.vcount[k] = self.vcount.get(k, 0) + 1
+            if self.vcount[k] <= 25:
+                self.violations.append(v)
         if res.status == 'unsupported':
             self.unsupported[res.detail] = self.unsupported.get(res.detail, 0) + 1
         if res.status == 'panic':
